@@ -98,7 +98,7 @@ func FinishVoid(fns ...func()) {
 // ForEach 加工所有生成的元素，但并不输出。
 func ForEach(generate GenerateFunc, mapper ForEachFunc, opts ...Option) {
 	options := buildOptions(opts...)
-	panicChan := &onceChan{channel: make(chan any)}
+	panicChan := &onceChan{channel: make(chan any, 1)}
 	source := buildSource(generate, panicChan)
 	collector := make(chan any)
 	done := make(chan lang.PlaceholderType)
@@ -121,6 +121,12 @@ func ForEach(generate GenerateFunc, mapper ForEachFunc, opts ...Option) {
 			panic(v)
 		case _, ok := <-collector:
 			if !ok {
+				// panicChan 有缓冲：返回前再检查一次，避免丢失 panic
+				select {
+				case v := <-panicChan.channel:
+					panic(v)
+				default:
+				}
 				return
 			}
 		}
@@ -141,14 +147,14 @@ func MapReduceVoid(generate GenerateFunc, mapper MapperFunc, reducer VoidReducer
 
 // MapReduce 加工所有生成的元素，并聚合后输出。
 func MapReduce(generate GenerateFunc, mapper MapperFunc, reducer ReducerFunc, opts ...Option) (any, error) {
-	panicChan := &onceChan{channel: make(chan any)}
+	panicChan := &onceChan{channel: make(chan any, 1)}
 	source := buildSource(generate, panicChan)
 	return mapReduceWithPanicChan(source, panicChan, mapper, reducer, opts...)
 }
 
 // MapReduceChan 加工所有给定的源数据，并聚合输出。
 func MapReduceChan(source <-chan any, mapper MapperFunc, reducer ReducerFunc, opts ...Option) (any, error) {
-	panicChan := &onceChan{channel: make(chan any)}
+	panicChan := &onceChan{channel: make(chan any, 1)}
 	return mapReduceWithPanicChan(source, panicChan, mapper, reducer, opts...)
 }
 
@@ -243,6 +249,13 @@ func mapReduceWithPanicChan(source <-chan any, panicChan *onceChan, mapper Mappe
 		drain(output)
 		panic(v)
 	case v, ok := <-output:
+		// panicChan 有缓冲：panic 可能与输出同时就绪，优先抛出 panic
+		select {
+		case p := <-panicChan.channel:
+			drain(output)
+			panic(p)
+		default:
+		}
 		if err := retErr.Load(); err != nil {
 			return nil, err
 		} else if ok {
